@@ -101,6 +101,14 @@ def run_async(ctx, fn_body, args, intercept, may_inline=None):
     return outs, I, cb
 
 
+def runner_inline(n, b):
+    """closures, From impls and the private helpers of the hook module (a piece of the runner moved into a function)"""
+    if b.get("coroutine"):
+        return False
+    return b["kind"] == "Closure" or (b.get("impl_trait") or "").startswith("std::convert::From<") or (
+        n.startswith("state::hooks::") and b["vis"] != "pub")
+
+
 def runner(ctx):
     ck, facts = ctx.check, ctx.facts
     try:
@@ -137,7 +145,33 @@ def runner(ctx):
     for bval in (1, 0):
         def icpt2(I, path, frame, t, name, args):
             short = name.rsplit("::", 1)[1] if "::" in name else name
-            if short == "into_iter" and args:
+            short = short.split("::<")[0]
+            if short in ("deref", "as_slice", "as_ref", "borrow") and len(args) == 1 and ("Vec" in name or "slice" in name):
+                return [(args[0], path)]  # a view of the same vector
+            if short == "find_map" and len(args) == 2 and I._deref_all(path, args[0])[0] == "iter":
+                # lazy search: one generic element is offered to the closure; Some(x) ends the search with x, None goes
+                # on to the next element (recorded) and finally to an exhausted iterator
+                outs_ = []
+                p_none = path.copy()
+                p_none.events.append(("next", "none"))
+                outs_.append((A.NONE, p_none))
+                path.events.append(("next", "some"))
+                res = I._call_closure_value(path, frame, t, args[1], [("hookfn",)], frame.depth, "find_map")
+                if res is None:
+                    return None
+                for o_ in res:
+                    if o_.kind != "return":
+                        outs_.append(("panic", o_.cls, o_.msg or "find_map closure", o_.path))
+                        continue
+                    for vi, payload, p3 in I.split_result(o_.path, o_.value, A.OPTION):
+                        if vi == 1:
+                            outs_.append((A.SOME(payload), p3))
+                        else:
+                            p3.events.append(("next", "continue"))
+                            p3.events.append(("next", "none"))
+                            outs_.append((A.NONE, p3))
+                return outs_
+            if short in ("into_iter", "iter") and args and ("slice" in name or "Vec" in name or "IntoIterator" in name or "[T]" in name):
                 v = args[0]
                 tgt = v
                 if v[0] == "ref":
@@ -153,9 +187,7 @@ def runner(ctx):
                 p2.events.append(("next", "none"))
                 return [(A.SOME(("hookfn",)), path), (A.NONE, p2)]
             return None
-        I = A.Interp(facts, intercept=icpt2,
-                     may_inline=lambda n, b: (b["kind"] == "Closure" and not b.get("coroutine")) or
-                     (b.get("impl_trait") or "").startswith("std::convert::From<"))
+        I = A.Interp(facts, intercept=icpt2, may_inline=runner_inline)
         # Hook value: opaque struct behind a reference
         hookref = ("ref", (("H", "hook"), ()), False)
         try:
@@ -211,9 +243,7 @@ def runner(ctx):
                         path.events.append(("hook_call",))
                         return [(val, path)]
                     return icpt2(I, path, frame, t, name, args)
-                I3 = A.Interp(facts, intercept=icpt3,
-                              may_inline=lambda n, b: (b["kind"] == "Closure" and not b.get("coroutine")) or
-                              (b.get("impl_trait") or "").startswith("std::convert::From<"))
+                I3 = A.Interp(facts, intercept=icpt3, may_inline=runner_inline)
                 I3.intercept_fn_calls = True
                 p0 = A.Path()
                 p0.assume = {FIN: [fin] + [0] * 7}
@@ -243,7 +273,7 @@ def runner(ctx):
                     else:
                         if not went_on and not any(e[0] == "loop_widened" for e in after):
                             bad = bad or "an Unhandled result ends the chain although execution goes on"
-        if not any("Iter" in e[2] or "Vec" in e[2] for o in outs for e in o.path.events if e[0] == "iterate"):
+        if not any(e[0] == "iterate" for o in outs for e in o.path.events):
             bad = bad or "the runner does not iterate a Vec/slice"
         if bad:
             ck.violation("C12.iterate", inst, bad, where=where)
@@ -317,6 +347,8 @@ def guard(ctx):
                     l1 = facts.bodies[name]["locals"][1] if facts.bodies[name]["argc"] >= 1 else None
                     if isinstance(l1, list) and l1[0] == "ref" and not l1[1]:
                         return None  # a `&self` helper cannot mutate: interpreted like inline code (e.g. an extracted guard)
+                    if facts.bodies[name]["vis"] != "pub":
+                        return None  # a private helper of the registration function: its effects are judged inline
                     path.events.append(("crate_call", name))
                     p2 = path.copy()
                     return [(A.OK(A.UNIT), path), (A.ERR(("e",)), p2)]
